@@ -159,7 +159,7 @@ def make_lsoda(plan: LsodaPlan, log: list):
             if plan.raise_at == k:
                 raise RuntimeError("stub: the right-hand side raised inside the solver")
             if plan.fail_at == k:
-                self.status = "failed"
+                self.status = "failed"  # t and y stay at the last accepted step, as in scipy
                 return "stub: step failed"
             if plan.eval_rhs_each_step:
                 self.rhs_values.append((self.t, self.y.copy(), self.fun(self.t, self.y.copy())))
@@ -179,6 +179,13 @@ def make_lsoda(plan: LsodaPlan, log: list):
             if k >= plan.steps:
                 self.status = "finished"
                 self.t = self.t_bound
+            else:
+                # an accepted interior step: the solver's time moves strictly towards t_bound
+                tk = real(f"tstep!{self.id}!{k}")
+                prev, t0, tb = R(self.t), R(self.t0), R(self.t_bound)
+                sym.ctx().assume(z3.Or(z3.And((t0 < tb).z3(), (prev < tk).z3(), (tk < tb).z3()), z3.And((t0 > tb).z3(), (prev > tk).z3(), (tk > tb).z3()),
+                                       z3.And((t0 == tb).z3(), (tk == tb).z3())))
+                self.t = tk
             return None
 
     return LSODA
